@@ -438,7 +438,9 @@ static void CodeGen(Word Code) {
         /* addressing mode is either given by keyword or by addressing syntax: */
 
         if ((ArgCnt == 3) && DecodeAddrKeyword(ArgStr[1].str.p_str, &AdrData.Mode)) {
-            AdrData.Val = EvalStrIntExpression(&ArgStr[3], Int8, &AddrOK);
+            /* only a constant may be negative; everything else is a memory address */
+            AdrData.Val = EvalStrIntExpression(
+                    &ArgStr[3], (AdrData.Mode == ModImm) ? Int8 : UInt8, &AddrOK);
             RegArg      = 2;
         } else {
             AddrOK = DecodeAdr(
